@@ -5,7 +5,7 @@
 From Coq Require Import List String QArith.
 From Coq Require Import Floats.PrimFloat.
 From PAFC01 Require Import ModelTree.
-From PAFC12 Require Import Gen Model Proofs Proofs2 Proofs3 Proofs4 Proofs5 Proofs6.
+From PAFC12 Require Import Gen Model Proofs Proofs2 Proofs3 Proofs4 Proofs5 Proofs6 Proofs7.
 Import ListNotations.
 
 (* STRUCTURE, every mode.  The new model has exactly the places (paths) of the old one, and the place that held
@@ -129,6 +129,18 @@ Theorem C12_config_context : forall (V : Type) (n : node V) (q : nat),
   (exists cls, class_of V q n = Some cls) /\ (exists p, last_path V q n = Some p /\ In (p, q) (walk V n)).
 Proof. exact config_context. Qed.
 
+(* CONFIGURED WIDTH OF THE OWN PARAMETER: a prior that occurs at exactly one place, held by a Model of class cls (at
+   structural path p) directly or as a member of a tuple prior, is looked up in the prior configuration under
+   (cls, its own attribute / member name) *)
+Theorem C12_config_own : forall (V : Type) (p : path) (n : node V) cls ctor attrs k0 c0 rest q,
+  PAFC01.Proofs.node_at V p n = Some (NModel cls ctor attrs) -> assoc k0 attrs = Some c0 -> is_pm V c0 = false ->
+  In (rest, q) (walk V c0) ->
+  occ q (walk V n) = [(p ++ k0 :: rest, q)] ->
+  isdigit (last (k0 :: rest) EmptyString) = false ->
+  class_of V q n = Some cls /\ last_path V q n = Some (p ++ k0 :: rest) /\
+  cfg_name (p ++ k0 :: rest) = Ok (last (k0 :: rest) EmptyString).
+Proof. exact config_own. Qed.
+
 (* Full statement "passing succeeds for every finite inferred vector", exact arithmetic.
    absolute widths: holds for all vectors of any sign, except the number-named-prior guard names_ok (partial);
    relative / configured widths: additionally only for non-negative values (partial); refuted otherwise. *)
@@ -232,3 +244,4 @@ Print Assumptions C12_total_relative_refuted.
 Print Assumptions C12_total_bounded_float_refuted.
 Print Assumptions C12_limits_structure.
 Print Assumptions C12_fixed_instance.
+Print Assumptions C12_config_own.
